@@ -67,6 +67,8 @@ class View:
     def __init__(self, lines):
         self.data = []      # (sid, dict)
         self.ctrl = []      # (sid, code, mine, seq)
+        self.info = []      # (sid, dict(what, frm, seq, topic, src))
+        self.permitted = None
         self.other = []
         self.push = []      # dict(seq, frm, to=frozenset, chan)
         self.loaded = 0
@@ -86,6 +88,9 @@ class View:
                 if w[1].startswith("data "):
                     d = kvs(w[1])
                     self.data.append((s, dict(seq=int(d["seq"]), frm=int(d["from"]), topic=d["topic"], content=d["content"], head=d["head"])))
+                elif w[1].startswith("info what="):
+                    d = kvs(w[1])
+                    self.info.append((s, dict(what=d["what"], frm=int(d["from"]), seq=int(d["seq"]), topic=d["topic"], src=d["src"])))
                 elif w[1].startswith("ctrl "):
                     d = kvs(w[1])
                     self.ctrl.append((s, int(w[1].split()[1]), d.get("mine") == "1", int(d["seq"]) if "seq" in d else None))
@@ -105,6 +110,8 @@ class View:
             elif t == "A":
                 d = kvs(w[1])
                 self.att[int(w[1].split()[0])] = (int(d["uid"]), d["chan"] == "1")
+            elif t == "permitted":
+                self.permitted = w[1] == "1"
             elif t == "oos":
                 self.oos = True
             elif t == "skipped":
@@ -341,6 +348,20 @@ def gen_op(rng, sc, g, v, kind, force=None):
         if not g.clogged:
             return None
         return ("unclog", [rng.choice(sorted(g.clogged))])
+    if kind == "note":
+        if not att:
+            return None
+        s = rng.choice(att)
+        u, ch = v.att[s]
+        sp = "c" if ch else nsp
+        if rng.random() < 0.05 and sc.kind != "p2p":
+            sp = "g" if sp == "c" else "c"
+        what = wchoice(rng, [("kp", 40), ("kpa", 8), ("read", 30), ("recv", 22)])
+        if what in ("kp", "kpa"):
+            seq = 0
+        else:
+            seq = max(1, rng.choice([v.lastid, v.lastid, v.lastid, v.lastid - 1, 1, v.lastid + 1]))
+        return ("note", [s, obo(s), sp, what, seq])
     if kind == "pub":
         if not att:
             pool = [s for s in free]
@@ -396,8 +417,8 @@ def gen_tail(rng, mp, sc, g, v, n):
         if queue:
             kind = queue.pop(0)
         else:
-            kind = wchoice(rng, [("pub", 46), ("att", 12), ("det", 9), ("want", 8), ("given", 9), ("evict", 3), ("unsub", 3), ("disc", 3),
-                                 ("clog", 3)])
+            kind = wchoice(rng, [("pub", 42), ("note", 12), ("att", 12), ("det", 9), ("want", 8), ("given", 9), ("evict", 3), ("unsub", 3),
+                                 ("disc", 3), ("clog", 3)])
         o = None
         for _try in range(4 if kind in ("pub", "unclog") else 1):
             o = gen_op(rng, sc, g, v, kind)
@@ -516,6 +537,57 @@ def peer(u):
     return 2 if u == 1 else 1
 
 
+KP_FAMILY = ("kp", "kpa", "kpv")
+
+
+def monitor_info(kind, pre, s, author, sp, what, seq, frames, clogged=()):
+    """The laws of a {note} relay on the frames the IMPLEMENTATION delivered (names start with info-, reusable by the
+    C09 check).  kind: grp|chn|p2p; pre: the implementation's state before the note (users, att); s: the originating
+    connection; frames: [(connection, dict(what, frm, seq, topic, src))] received during the request."""
+    res = []
+    rel = [(x, d) for x, d in frames if d["src"] == "-"]
+    got = {}
+    for x, d in rel:
+        got.setdefault(x, []).append(d)
+    for x, ds in got.items():
+        if len(ds) != 1:
+            res.append(("info-exactly-one-copy", "connection %d received %d {info} frames for one note" % (x, len(ds))))
+        if x == s:
+            res.append(("info-echoed-to-originating-session", "the connection %d that sent the note received %s" % (x, ds[0])))
+        if x not in pre.att:
+            res.append(("info-to-unattached-connection", "connection %d is not attached, received %s" % (x, ds[0])))
+            continue
+        u, ch = pre.att[x]
+        if ch:
+            res.append(("info-to-channel-subscription", "channel subscription %d (user %d) received the note relay %s" % (x, u, ds[0])))
+        elif not (pre.eff(u) & R):
+            res.append(("info-to-readless-user", "connection %d of user %d (want&given=%d, no R) received %s" % (x, u, pre.eff(u), ds[0])))
+        for d in ds:
+            if what == "kp" and u == author:
+                res.append(("info-kp-to-typists-own-session", "key press of user %d relayed to his own connection %d" % (author, x)))
+            if d["frm"] != author or d["what"] != what or d["seq"] != seq:
+                res.append(("info-names-sender-kind-id", "note %s seq=%d from user %d relayed to %d as %s" % (what, seq, author, x, d)))
+            if kind == "p2p":
+                exp = "u%d" % peer(u)
+            elif kind == "chn":
+                exp = "c" if (ch or (u in pre.users and pre.users[u]["chan"])) else "g"
+            else:
+                exp = sp if sp in ("g", "c") else "g"     # a plain group relays the name as written (see the C02 finding)
+            if d["topic"] != exp:
+                res.append(("info-topic-as-seen", "relay to connection %d (user %d) names the topic %s, expected %s" % (x, u, d["topic"], exp)))
+    # completeness: once anybody got the relay (or for a key press that passes the permission gate) everybody eligible must
+    pa = pre.users.get(author)
+    gate = (what in KP_FAMILY and pa is not None and not pa["deleted"] and bool(pre.eff(author) & W) and sp != "c" and s in pre.att)
+    if rel or gate:
+        for x, (u, ch) in pre.att.items():
+            if x in clogged or x == s or ch or not (pre.eff(u) & R) or (what == "kp" and u == author):
+                continue
+            if x not in got:
+                res.append(("info-eligible-reader-missed", "connection %d (user %d, R, not a channel subscription) got no relay of %s seq=%d from user %d"
+                            % (x, u, what, seq, author)))
+    return res
+
+
 def monitor(sc, views):
     res = []
     prev = View([])
@@ -541,6 +613,11 @@ def monitor(sc, views):
             if x in inc and d["seq"] <= inc[x]:
                 fail("per-session-increasing-ids", k, "connection %d received id %d after id %d" % (x, d["seq"], inc[x]))
             inc[x] = d["seq"]
+        if kind == "note" and not v.skipped:
+            for law, detail in monitor_info(sc.kind, prev, s, sc.acting(args), args[2], args[3], int(args[4]), v.info, clogged):
+                fail(law, k, detail)
+        elif any(d["src"] == "-" for x, d in v.info):
+            fail("info-only-from-notes", k, "request %s %s produced a note relay: %s" % (kind, args, v.info[:3]))
         if kind != "pub":
             if v.data:
                 fail("data-only-from-publish", k, "request %s %s produced {data}: %s" % (kind, args, v.data[:3]))
@@ -618,7 +695,9 @@ def monitor(sc, views):
                          % (real, args[6], x, snd))
                 if is_reader_of_channel:
                     if d["frm"] != 0:
-                        fail("author-withheld-from-channel-reader", k,
+                        # a channel subscription shown the author is one law; the recorded finding (a channel reader's
+                        # connection attached under the grpXXX name) has its own name so that it cannot mask the first
+                        fail("author-withheld-from-channel-subscription" if ch else "author-shown-to-channel-reader-attached-by-group-name", k,
                              "connection %d of channel reader %d (channel subscription=%s) was shown the author %d" % (x, u, ch, d["frm"]))
                 elif d["frm"] != author:
                     fail("true-author-shown", k, "copy to %d names author %d, the author is %d" % (x, d["frm"], author))
@@ -678,6 +757,8 @@ def proj(sc, k, v):
         # an error reply to a request without id carries no id either
         d["ack"] = sorted((c, q) for x, c, mine, q in v.ctrl if x == s and (mine or (int(args[4]) == 0 and c >= 400)))
         d["push"] = sorted((p["seq"], p["frm"], tuple(sorted(p["to"])), p["chan"]) for p in v.push)
+    if kind == "note":
+        d["info"] = sorted((x, tuple(sorted(f.items()))) for x, f in v.info if f["src"] == "-")
     if v.loaded:
         d["state"] = v.state_key()
     return d
@@ -686,8 +767,10 @@ def proj(sc, k, v):
 def diff_op(sc, k, iv, mv):
     a, b = proj(sc, k, iv), proj(sc, k, mv)
     res = []
-    for name in ("copies", "ack", "push", "state"):
+    for name in ("copies", "ack", "push", "info", "state"):
         if name in a and a.get(name) != b.get(name):
+            if name == "info" and not a["info"] and mv.permitted and sc.ops[k][1][3] in ("read", "recv"):
+                continue     # a stale read/recv receipt (decided by the marks, C09) is not relayed: the model does not decide that
             res.append((name, a.get(name), b.get(name)))
     return res
 
@@ -730,6 +813,7 @@ CORPUS = [
     ("chn", 5, 47, [(1, 255, 255, 0), (2, 47, 47, 0), (3, 11, 11, 1)],
      {1: (1, 0), 2: (2, 0), 3: (3, 0), 4: (3, 0), 5: (4, 0), 6: (5, 1), 7: (2, 0)},
      [("att", [1, 0, "g"]), ("att", [2, 0, "g"]), ("att", [7, 0, "g"]), ("att", [3, 0, "c"]), ("pub", [2, 0, "g", 0, 1, 101, "-"]),
+      ("note", [1, 0, "g", "read", 1]), ("note", [2, 0, "g", "kp", 0]), ("note", [3, 0, "c", "read", 1]), ("note", [7, 0, "g", "recv", 1]),
       ("pub", [2, 0, "g", 1, 1, 102, "sender:u1,x1:t5"]), ("pub", [2, 0, "c", 0, 1, 103, "mime:t2"]), ("att", [5, 0, "g"]),
       ("att", [6, 2, "g"]), ("pub", [6, 2, "g", 0, 1, 104, "sender:u3"]), ("pub", [6, 1, "g", 1, 1, 105, "-"]), ("det", [3, 0, "c"]),
       ("pub", [1, 0, "g", 0, 1, 106, "-"]), ("pub", [1, 0, "g", 0, 0, 107, "-"]), ("att", [4, 0, "g"]), ("att", [3, 0, "c"]),
@@ -745,7 +829,7 @@ CORPUS = [
     # p2p: both participants with two connections, an outsider, root on behalf, muting, a stuck connection
     ("p2p", 4, 0, [(1, 31, 31, 0), (2, 31, 23, 0)], {1: (1, 0), 2: (2, 0), 3: (1, 0), 4: (3, 0), 5: (4, 1), 6: (2, 0)},
      [("att", [1, 0, "u"]), ("att", [2, 0, "u"]), ("att", [3, 0, "u"]), ("att", [4, 0, "T"]), ("att", [5, 2, "u"]), ("att", [6, 0, "u"]),
-      ("pub", [1, 0, "u", 0, 1, 101, "-"]), ("pub", [1, 0, "T", 1, 1, 102, "-"]), ("pub", [5, 1, "u", 0, 1, 103, "sender:u2"]),
+      ("pub", [1, 0, "u", 0, 1, 101, "-"]), ("note", [2, 0, "u", "read", 1]), ("note", [1, 0, "u", "kp", 0]), ("pub", [1, 0, "T", 1, 1, 102, "-"]), ("pub", [5, 1, "u", 0, 1, 103, "sender:u2"]),
       ("pub", [5, 3, "T", 0, 1, 104, "-"]), ("want", [2, 0, "u", 21]), ("pub", [1, 0, "u", 0, 1, 105, "-"]), ("want", [2, 0, "u", 31]),
       ("clog", [3]), ("pub", [2, 0, "u", 0, 1, 106, "-"]), ("unclog", [3]), ("pub", [1, 0, "u", 0, 1, 107, "-"]), ("given", [1, 0, "u", 2, 30]),
       ("pub", [1, 0, "u", 0, 1, 108, "-"]), ("unsub", [1, 0, "u"])]),
@@ -775,7 +859,7 @@ def run(ctx):
         if os.path.isdir(cdir):
             for f in sorted(os.listdir(cdir)):
                 scns.append(Scn.from_replay(json.load(open(os.path.join(cdir, f))), "f_" + f.split(".")[0]))
-        scns += gen_scenarios(ctx, 300 if quick else 5000)
+        scns += gen_scenarios(ctx, 240 if quick else 5000)
     t0 = time.time()
     rc, impl, log = run_impl(ctx, scns)
     t_impl = time.time() - t0
@@ -813,7 +897,8 @@ def run(ctx):
             detail = dd[0] if dd else detail
         rp = small.replay()
         rp.update({"law": law, "detail": detail, "scenarios_failing": len(lst)})
-        ctx.violation("monitor", law, "law %s fails on the implementation's trace (%d scenarios this run): %s" % (law, len(lst), detail), rp)
+        ctx.violation("monitor", law, "law %s fails on the implementation's trace (%d requests in %d scenarios this run): %s"
+                      % (law, len(lst), len(set(x[0].id for x in lst)), detail), rp)
 
     mism = []
     for sc in scns:
@@ -898,6 +983,12 @@ def run(ctx):
                                else "self-banned" if not (int(p["want"]) & J if p["want"].isdigit() else 0)
                                else "read-less" if not e & R else "muted" if not e & P else "write-less" if not e & W else "full")
                         pops[cls] = pops.get(cls, 0) + 1
+            if kind == "note":
+                key = "note_%s_%s" % (args[3], "relayed" if any(d["src"] == "-" for x, d in v.info) else "not_relayed")
+                feat[key] = feat.get(key, 0) + 1
+                feat["info_frames"] = feat.get("info_frames", 0) + len(v.info)
+                feat["notes_with_channel_subscription_attached"] = feat.get("notes_with_channel_subscription_attached", 0) + (
+                    1 if any(ch for _, ch in prev.att.values()) else 0)
             if kind == "clog":
                 feat["overflow"] += 1
             prev = carry(prev, v)
